@@ -271,6 +271,9 @@ def run(ctx):
                    '' if not miss else f'{m_} never looks at {miss}, which the sibling key-rewriting methods of {kc.name} do rewrite: keys inside that child keep their old scope/name',
                    kc.mod.rel, kc.methods[m_].lineno)
 
+    shared.control_keys_cover_rule(ctx, 'C12.o', floor=4)
+    ctx.decided.append('C12.o _control_keys_ of every wrapping operation covers the children whose keys the class rewrites')
+
     # ------------------------------------------------------------------ C12.g
     cond = repo.cls('cirq.value.condition.Condition')
     shared.rebuild_rule(ctx, 'C12.g', only_methods={'replace_key', '_with_key_path_', '_with_key_path_prefix_', '_with_rescoped_keys_',
